@@ -225,6 +225,37 @@ Definition chk_maximal (g : graph) (censor : option (list nat)) (out : graph) : 
   | Some g1 => forallb (chk_merged g1 (survivors g censor)) out
   | None => false
   end.
+(* (2c) terminal extensions: those of the two end nodes of the path in the restricted input graph, read in the
+   orientation in which the node is traversed (complemented when flipped) - nothing is lost, nothing invented *)
+Definition left_of (e : N) (d : dir) : N :=
+  match d with DLeft => e_single_dir e false | DRight => e_complement (e_single_dir e true) end.
+Definition right_of (e : N) (d : dir) : N :=
+  match d with DLeft => e_single_dir e true | DRight => e_complement (e_single_dir e false) end.
+Definition path_exts (g1 : graph) (p : list (nat * dir)) : option N :=
+  match p with
+  | [] => None
+  | a :: _ =>
+    let z := last p a in
+    match nth_error g1 (fst a), nth_error g1 (fst z) with
+    | Some na, Some nz =>
+        Some (e_from_single_dirs (left_of (n_exts D na) (snd a)) (right_of (n_exts D nz) (snd z)))
+    | _, _ => None
+    end
+  end.
+Definition exts_ok (g1 : graph) (n : gnode) : Prop :=
+  exists p, sequence_of_path D K g1 p = Some (n_seq D n) /\ path_exts g1 p = Some (n_exts D n).
+Definition chk_exts_node (g1 : graph) (n : gnode) : bool :=
+  match node_path g1 (n_seq D n) with
+  | Some p => match path_exts g1 p with Some e => e =? n_exts D n | None => false end
+  | None => false
+  end.
+Definition exts_exact (g : graph) (censor : option (list nat)) (out : graph) : Prop :=
+  exists g1, restrict g (survivors g censor) = Some g1 /\ Forall (exts_ok g1) out.
+Definition chk_exts (g : graph) (censor : option (list nat)) (out : graph) : bool :=
+  match restrict g (survivors g censor) with
+  | Some g1 => forallb (chk_exts_node g1) out
+  | None => false
+  end.
 End RSpec.
 
 (* ---- the harness payload: (colour, ids); reduce keeps the colour and concatenates ids -------------------- *)
